@@ -86,7 +86,8 @@ def rule_bisect(prog, rep):
                             "(keeps sign f(lower) <= 0 <= sign f(upper), halves or zeroes the width); the loop runs "
                             "while upper-lower > 2*tol and the root returned is the final midpoint", minimum=7)
     it = Interp(prog, no_inline={BS + "_adapt_interval_to_include_root"})
-    t = it.eval_function(BS + "_bisection_search", [F], {"lower": LO, "upper": UP, "tol": TOL, "max_iter": MI})
+    kw = {"lower": LO, "upper": UP, "tol": TOL, "max_iter": MI}
+    t = it.eval_function(BS + "_bisection_search", [F], kw)
     if has_unknown(t):
         rep.undecided("C10.bracket", site, "_bisection_search", f"unmodelled: {find_unknown(t)}")
         return
@@ -176,7 +177,8 @@ def rule_adapt(prog, rep):
                           "the bracket", minimum=9)
     it = Interp(prog)
     EF = ("sym", "EXPAND_FACTOR")
-    t = it.eval_function(BS + "_adapt_interval_to_include_root", [F], {"lower": LO, "upper": UP, "expand_factor": EF})
+    kw = {"lower": LO, "upper": UP, "expand_factor": EF}
+    t = it.eval_function(BS + "_adapt_interval_to_include_root", [F], kw)
     if has_unknown(t):
         rep.undecided("C10.adapt", site, "_adapt_interval", f"unmodelled: {find_unknown(t)}")
         return
@@ -268,8 +270,8 @@ def rule_driver(prog, rep):
                            "index advances by one; the start vector is the bracket midpoint", minimum=5)
     G, N = ("sym", "G"), ("sym", "LENGTH")
     it = Interp(prog, no_inline={BS + "_bisection_search"})
-    t = it.eval_function(BS + "_autoregressive_bisection_search", [G],
-                         {"lower": LO, "upper": UP, "tol": TOL, "length": N, "max_iter": MI})
+    kw = {"lower": LO, "upper": UP, "tol": TOL, "length": N, "max_iter": MI}
+    t = it.eval_function(BS + "_autoregressive_bisection_search", [G], kw)
     if has_unknown(t) or t[0] != "fold" or t[1][0] != "scanxs":
         rep.undecided("C10.driver", site, "driver", f"not a scan fold: {show(t, 200)}")
         return
